@@ -77,6 +77,7 @@ type graph struct {
 	fieldMappingRecords map[string][]*FieldMapping
 
 	buildError error
+	compiling  bool // set while compile is running on this graph
 
 	cmp component
 
@@ -640,6 +641,14 @@ func (g *graph) compile(ctx context.Context, opt *graphCompileOptions) (*composa
 	if g.buildError != nil {
 		return nil, g.buildError
 	}
+
+	// compiling a graph compiles the graphs nested in it: meeting this graph again on the way down means it is
+	// nested in itself (directly or through other graphs), which would never end
+	if g.compiling {
+		return nil, errors.New("graph is nested in itself, directly or through the graphs it contains")
+	}
+	g.compiling = true
+	defer func() { g.compiling = false }()
 
 	// get run type
 	runType := runTypePregel
